@@ -30,10 +30,29 @@ def worker_init():
     FILES = pool.aiuti_files()
 
 
-class BatchError(Exception):
+class _BatchErrorBase(Exception):
+    pass
+
+
+class BatchError(_BatchErrorBase):
     def __init__(self, b):
         super().__init__('batch %d failed' % b)
         self.b = b
+
+
+class BatchKeyError(BatchError, KeyError):
+    """the exception a batch function dies of may belong to any family (a failed dict look-up ...)"""
+
+
+class BatchRuntimeError(BatchError, RuntimeError):
+    pass
+
+
+class BatchTimeout(BatchError, TimeoutError):
+    pass
+
+
+RAISEFAM = {'plain': BatchError, 'key': BatchKeyError, 'runtime': BatchRuntimeError, 'timeout': BatchTimeout}
 
 
 class TaggedExc(Exception):
@@ -118,7 +137,7 @@ def execute(sc):
                 for pos, (key, arg) in enumerate(its):
                     if raise_at and raise_at[0] == b and raise_at[1] == pos:
                         end('raise')
-                        raise BatchError(b)
+                        raise RAISEFAM[sc.get('excfam', 'plain')](b)
                     if sc.get('item_dur', 0.0) > 0:
                         await asyncio.sleep(sc['item_dur'])
                     beh = behav.get(key, 'value')
@@ -142,7 +161,7 @@ def execute(sc):
                         yield key, Val([b, key, ny[0]])
                 if raise_at and raise_at[0] == b and raise_at[1] >= len(its):
                     end('raise')
-                    raise BatchError(b)
+                    raise RAISEFAM[sc.get('excfam', 'plain')](b)
                 if sc.get('tail_dur', 0.0) > 0:      # work the function does after its last result (clean-up, commit ...)
                     await asyncio.sleep(sc['tail_dur'])
                 end('ok')
@@ -237,7 +256,20 @@ def execute(sc):
                 ctl.log('Cancel', i=i)
                 t.cancel()
 
+        async def warm_other():
+            # another batcher object (its own batch function) has served the same keys in this process before and
+            # still retains its results: nothing of that may show through in the batcher under test
+            async def other_fn(items):
+                for k, a in items:
+                    yield k, ('other-batcher', k)
+            other = A.AsyncBackgroundBatcher(other_fn, max_batch_size=8, batch_timeout=0.0, retention_timeout=100000.0)
+            keep.append(other)
+            ks = sorted({(str(cs['arg']), cs.get('key')) for cs in sc['calls']})
+            await asyncio.gather(*[other(a, key=k) if k is not None else other(a) for a, k in ks], return_exceptions=True)
+
         async def main():
+            if sc.get('warm_other'):
+                await warm_other()
             fn = shared.get('fn') or make(loop)
             keep.append(fn)
             if sc.get('form', 'class') == 'class' and len(loops) == 1:
